@@ -679,8 +679,14 @@ def geterrortext(
     except sysex:
         raise
     except BaseException:
-        errortext = f"{type(exc).__name__}: {exc}"
-    return errortext
+        try:
+            errortext = f"{type(exc).__name__}: {exc}"
+        except sysex:
+            raise
+        except BaseException:
+            errortext = f"{type(exc).__name__}: <unprintable exception>"
+    # the text is sent to the other side as UTF-8
+    return errortext.encode("utf-8", "backslashreplace").decode("utf-8")
 
 
 class RemoteError(Exception):
@@ -1090,8 +1096,8 @@ class ChannelFactory:
                     data = loads_internal(data, channel, strconfig)
                 callback(data)  # even if channel may be already closed
             except Exception as exc:
-                self.gateway._trace("exception during callback: %s" % exc)
                 errortext = self.gateway._geterrortext(exc)
+                self.gateway._trace("exception during callback: %s" % errortext)
                 self.gateway._send(
                     Message.CHANNEL_CLOSE_ERROR, id, dumps_internal(errortext)
                 )
@@ -1360,8 +1366,8 @@ class WorkerGateway(BaseGateway):
 
         except BaseException as exc:
             if not channel.gateway._channelfactory.finished:
-                self._trace(f"got exception: {exc!r}")
                 errortext = self._geterrortext(exc)
+                self._trace(f"got exception: {errortext}")
                 channel.close(errortext)
                 return
         channel.close()
